@@ -101,6 +101,11 @@ func c11Stream(o *Out, rng *rand.Rand, n int) {
 	srcs := [][]byte{{192, 0, 2, 7}, net.ParseIP("2001:db8::1"), net.ParseIP("::ffff:192.0.2.9"), {10, 0, 0, 1}, net.ParseIP("::1")}
 	f4 := [][]byte{{0, 0, 0, 0}, {198, 51, 100, 4}, {255, 255, 255, 255}, {0, 0, 0, 1}, {1, 0, 0, 0}}
 	f16 := [][]byte{make([]byte, 16), net.ParseIP("2001:db8::99"), net.ParseIP("::ffff:198.51.100.5"), net.ParseIP("::1"), net.ParseIP("100::")}
+	// BEP 41 URL data naming an address the way the HTTP frontend's parameters do: the UDP frontend takes the address
+	// from the datagram's source or (spoofing allowed) from the packet's IP field - never from the request string
+	urlData := []string{"", "/announce?ip=2001:db8::bad:cafe", "/?ipv6=2001:db8::bad:cafe", "/?ipv4=203.0.113.9", "/announce?ip=203.0.113.9&ipv6=2001:db8::7",
+		"?IPV6=2001:db8::bad", "/a?ipv6=%32001:db8::1&ipv6=2001:db8::2", "/?ip=0.0.0.0&ipv6=::"}
+	k := 0
 	rounds := n/100 + 1
 	for round := 0; round < rounds; round++ {
 		for _, spoof := range []bool{false, true} {
@@ -113,6 +118,18 @@ func c11Stream(o *Out, rng *rand.Rand, n int) {
 					for _, fld := range fields {
 						p := g.announce(make([]byte, 8), v6, uint32(rng.Intn(4)))
 						copy(p[84:], fld)
+						k++
+						if ud := urlData[k%len(urlData)]; ud != "" {
+							// replace whatever options the generator appended by ONE well-formed URLData option
+							fixed := 98
+							if v6 {
+								fixed = 110
+							}
+							p = append(append(append([]byte{}, p[:fixed]...), 2, byte(len(ud))), []byte(ud)...)
+							if k%3 == 0 {
+								p = append(p, 0)
+							}
+						}
 						if p[len(p)-1] == 0 && p[len(p)-2] == 0 {
 							p[len(p)-1] = 1
 						}
